@@ -1,1 +1,279 @@
-/- C07 property theorems (stub: not built yet) -/
+import ThriftVerif.Lib.Determinism
+import ThriftVerif.Lib.DeterminismLemmas
+import ThriftVerif.Generated.C07Sites
+/-
+  C07 — code generation is deterministic.
+  Property theorems only; helper lemmas live in Lib/DeterminismLemmas.lean.
+
+  Every consumer of Go map iteration takes the entries in the order the runtime picked; a consumer is
+  deterministic iff its result is invariant under `List.Perm` of that order.  One theorem per class
+  of consumer, a classification of every site of the regenerated inventory into one class
+  (`site_inventory_covered`, re-checked against /repo on every run), and — for the class that writes
+  entries in iteration order — the proof that the result is *not* invariant (the property is false
+  there on the current tree; see docs/C07.md).
+-/
+namespace Props.C07
+open Determinism Generated.C07
+
+/-! ## class `intoMap`: the loop stores each entry into another map -/
+
+/-- Storing entries with pairwise-distinct keys into a map gives the same map (same value for every
+key) whatever the order. -/
+theorem perm_into_map {κ ν} [DecidableEq κ] (dst es₁ es₂ : List (κ × ν)) (hp : es₁.Perm es₂)
+    (hn : (es₁.map Prod.fst).Nodup) :
+    ∀ k, aLookup k (intoMap dst es₁) = aLookup k (intoMap dst es₂) :=
+  fun k => intoMap_perm hp hn dst k
+
+example : (([(1, 10), (2, 20)] : List (Nat × Nat)).map Prod.fst).Nodup := by decide
+
+/-- … and the hypothesis is needed: with a repeated key the last store wins. -/
+theorem perm_into_map_needs_distinct_keys :
+    ¬ ∀ (dst es₁ es₂ : List (Nat × Nat)), es₁.Perm es₂ →
+        ∀ k, aLookup k (intoMap dst es₁) = aLookup k (intoMap dst es₂) := by
+  intro h
+  have := h [] [(1, 10), (1, 20)] [(1, 20), (1, 10)] (List.Perm.swap _ _ _) 1
+  revert this
+  decide
+
+/-! ## class `nsAdd`: importManager.init registers its table through (*namespace).Add -/
+
+/-- Adding pairwise-distinct names with pairwise-distinct ids to an empty namespace never renames,
+and yields the same two maps in whatever order the entries are visited. -/
+theorem ns_add_comm (rename : Bytes → Nat → Bytes) (es₁ es₂ : List (Bytes × Bytes)) (hp : es₁.Perm es₂)
+    (hnames : (es₁.map Prod.fst).Nodup) (hids : (es₁.map Prod.snd).Nodup) :
+    ∃ ns₁ ns₂, NS.addAll rename NS.empty es₁ = some ns₁ ∧ NS.addAll rename NS.empty es₂ = some ns₂ ∧
+      (∀ k, aLookup k ns₁.name2id = aLookup k ns₂.name2id) ∧
+      (∀ k, aLookup k ns₁.id2name = aLookup k ns₂.id2name) := by
+  have hnames₂ : (es₂.map Prod.fst).Nodup := ((hp.map Prod.fst).nodup_iff).1 hnames
+  refine ⟨_, _, addAll_fresh rename es₁ NS.empty hnames (fun _ _ => rfl),
+    addAll_fresh rename es₂ NS.empty hnames₂ (fun _ _ => rfl), ?_, ?_⟩
+  · exact fun k => intoMap_perm hp hnames [] k
+  · refine fun k => intoMap_perm (hp.map _) ?_ [] k
+    simpa [List.map_map, Function.comp_def] using hids
+
+/-- regenerated obligation: the table `std` of importManager.init has pairwise-distinct package
+names and pairwise-distinct import paths (so `ns_add_comm` applies to it as long as no
+`thrift_import_path` / `use_package` replacement maps two of the paths to one). -/
+theorem std_imports_distinct :
+    (stdImports.map Prod.fst).Nodup ∧ (stdImports.map Prod.snd).Nodup := by decide
+
+/-! ## class `sortThen`: the loop collects, the result is sorted by a key -/
+
+/-- Sorting by a key that totally orders the keys and is injective on the collected elements gives
+one result for every order of collection (ServiceThrows: key = Go type name, the map's own key;
+go/format over one import block: key = import path). -/
+theorem perm_then_sort {α κ} (key : α → κ) (leK : κ → κ → Bool)
+    (tot : ∀ a b, leK a b = false → leK b a = true)
+    (tr : ∀ a b c, leK a b = true → leK b c = true → leK a c = true)
+    (anti : ∀ a b, leK a b = true → leK b a = true → a = b)
+    (es₁ es₂ : List α) (hp : es₁.Perm es₂) (hn : (es₁.map key).Nodup) :
+    sortedBy (fun a b => leK (key a) (key b)) es₁ = sortedBy (fun a b => leK (key a) (key b)) es₂ :=
+  sortedBy_key_perm_eq key leK tot tr anti hp hn
+
+/-- the instance used for Go strings: `bytesLe` is a total order -/
+theorem perm_then_sort_strings {α} (key : α → Bytes) (es₁ es₂ : List α) (hp : es₁.Perm es₂)
+    (hn : (es₁.map key).Nodup) :
+    sortedBy (fun a b => bytesLe (key a) (key b)) es₁ = sortedBy (fun a b => bytesLe (key a) (key b)) es₂ :=
+  sortedBy_key_perm_eq key bytesLe bytesLe_total bytesLe_trans bytesLe_antisymm hp hn
+
+/-! ## class `firstError`: the loop returns the first failing entry's error -/
+
+/-- Whether the loop fails does not depend on the order (which error text it reports does). -/
+theorem perm_any {α} (bad : α → Bool) (es₁ es₂ : List α) (hp : es₁.Perm es₂) :
+    anyFails bad es₁ = anyFails bad es₂ := hp.any_eq
+
+/-! ## class `sum`: the loop adds up sizes -/
+
+theorem perm_sum {α} (f : α → Nat) (es₁ es₂ : List α) (hp : es₁.Perm es₂) :
+    sumOver f es₁ = sumOver f es₂ := foldl_add_perm f hp 0
+
+/-! ## class `replacer`: the loop builds the argument list of strings.NewReplacer -/
+
+/-- With old strings none of which is a prefix of another pair's, the generic replacement algorithm
+gives the same text for every order of the pairs. -/
+theorem replacer_perm (pairs₁ pairs₂ : List (Bytes × Bytes)) (hp : pairs₁.Perm pairs₂)
+    (hf : PrefixFree pairs₁) (s : Bytes) : replace pairs₁ s = replace pairs₂ s :=
+  replaceAux_perm hp hf s 0
+
+/-- Keys of the shape matched by `insertReg` end in `)`, which their alphabet excludes: one is a
+prefix of another only if they are equal. -/
+theorem insertion_keys_prefix_free (k₁ k₂ : Bytes) (h₁ : IsInsertionKey k₁) (h₂ : IsInsertionKey k₂)
+    (hp : k₁ <+: k₂) : k₁ = k₂ := insertionKey_prefix_eq h₁ h₂ hp
+
+/-- BuildResponse: for the table built from the file's own insertion points and from patches whose
+point names use the insertion-point alphabet, the file content after replacement is the same for
+every order in which `range p.m` visits the table. -/
+theorem insertion_replace_perm (content : Bytes) (patches : List (Bytes × Bytes))
+    (hnames : ∀ p ∈ patches, ∀ c ∈ p.1, isKeyChar c = true)
+    (order : List (Bytes × Bytes)) (hp : (ipTable content patches).Perm order) :
+    ipReplace order content = ipReplace (ipTable content patches) content := by
+  have ok := tableOK_ipTable content patches hnames
+  exact (replaceAux_perm hp (prefixFree_of_insertionKeys _
+    (fun p hp' => ok.2 _ (List.mem_map_of_mem (f := Prod.fst) hp')) ok.1) content 0).symm
+
+example : ∀ p ∈ [(([105, 109, 112, 111, 114, 116, 115] : Bytes), ([120] : Bytes))], ∀ c ∈ p.1, isKeyChar c = true := by
+  decide
+
+/-- … and the hypothesis on patch names is needed: a plugin-supplied point name containing `)` can
+make one key a prefix of another, and then the order decides.
+Point `a)b` against a file that contains `@@thriftgo_insertion_point(a)b)`. -/
+theorem insertion_replace_needs_key_alphabet :
+    let content := insertionPoint [97, 41, 98]
+    let t := ipTable content [([97, 41, 98], [88])]
+    ipReplace t content ≠ ipReplace t.reverse content := by decide
+
+/-! ## class `emitInOrder`: the loop writes every entry to the output as it comes -/
+
+/- The full statement,
+     ∀ fid es₁ es₂, es₁.Perm es₂ → encMapField fid es₁ = encMapField fid es₂        (descriptor_bytes_perm)
+   is FALSE for the code as it is (meta.write iterates with MapRange and writes as it goes). -/
+
+/-- negative witness: a file with the two namespaces `go a` and `java b`. -/
+theorem descriptor_bytes_perm_false :
+    ¬ ∀ (fid : Nat) (es₁ es₂ : List (Bytes × Bytes)), es₁.Perm es₂ → encMapField fid es₁ = encMapField fid es₂ := by
+  intro h
+  have := h 3 [([103, 111], [97]), ([106, 97, 118, 97], [98])] [([106, 97, 118, 97], [98]), ([103, 111], [97])]
+    (List.Perm.swap _ _ _)
+  revert this
+  decide
+
+/-- in general: exchanging two different adjacent entries always changes the bytes of the field … -/
+theorem descriptor_bytes_order_sensitive (fid : Nat) (a b : Bytes × Bytes) (r : List (Bytes × Bytes))
+    (ha : Small a) (hb : Small b) (hne : a ≠ b) :
+    encMapField fid (a :: b :: r) ≠ encMapField fid (b :: a :: r) :=
+  encMapField_swap_ne fid r ha hb hne
+
+/-- … and of the whole marshalled FileDescriptor (shown for the namespaces map). -/
+theorem file_descriptor_order_sensitive (path : Bytes) (inc : List (Bytes × Bytes)) (a b : Bytes × Bytes)
+    (r : List (Bytes × Bytes)) (ha : Small a) (hb : Small b) (hne : a ≠ b) :
+    encFileDescriptor path inc (a :: b :: r) ≠ encFileDescriptor path inc (b :: a :: r) := by
+  intro h
+  unfold encFileDescriptor at h
+  simp only [List.append_assoc] at h
+  have h₁ := List.append_cancel_left h
+  have h₂ := List.append_cancel_left h₁
+  have h₃ := List.append_cancel_left h₂
+  have h₄ : encMapField 3 (a :: b :: r) = encMapField 3 (b :: a :: r) := List.append_cancel_right h₃
+  exact encMapField_swap_ne 3 r ha hb hne h₄
+
+example : Small (([103, 111], [97]) : Bytes × Bytes) := by unfold Small; decide
+
+/-- partial: maps with at most one entry are written deterministically. -/
+theorem descriptor_bytes_perm_partial (fid : Nat) (es₁ es₂ : List (Bytes × Bytes)) (hp : es₁.Perm es₂)
+    (h1 : es₁.length ≤ 1) : encMapField fid es₁ = encMapField fid es₂ := by
+  match es₁, es₂, hp, h1 with
+  | [], es₂, hp, _ => rw [List.Perm.nil_eq hp]
+  | [a], es₂, hp, _ => rw [List.singleton_perm.1 hp]
+  | _ :: _ :: _, _, _, h1 => simp at h1
+
+/-- the sorted variant (the suggested repair: sort the keys, then write) is deterministic. -/
+theorem descriptor_bytes_sorted_perm (fid : Nat) (es₁ es₂ : List (Bytes × Bytes)) (hp : es₁.Perm es₂)
+    (hn : (es₁.map Prod.fst).Nodup) : encMapFieldSorted fid es₁ = encMapFieldSorted fid es₂ := by
+  unfold encMapFieldSorted
+  rw [sortedBy_key_perm_eq Prod.fst bytesLe bytesLe_total bytesLe_trans bytesLe_antisymm hp hn]
+
+/-- the same defect class in the request sent to plugins: (*Thrift).FastAppend writes the
+Name2Category map as it iterates; two different entries never commute. -/
+theorem plugin_request_order_sensitive (a b : Bytes × Nat) (r : List (Bytes × Nat))
+    (ha : a.1.length < 4294967296) (hb : b.1.length < 4294967296) (hva : a.2 < 4294967296)
+    (hvb : b.2 < 4294967296) (hne : a ≠ b) :
+    emit encNameCategory (a :: b :: r) ≠ emit encNameCategory (b :: a :: r) :=
+  emit_swap_ne encNameCategory a b r (encNameCategory_noncomm ha hb hva hvb hne)
+
+/-- the same defect class in fastgo's import block when go/format does not run (`no_fmt`):
+`fmt` and `unsafe` in either order. With formatting on, go/format sorts the block (`perm_then_sort`). -/
+theorem fastgo_imports_order_sensitive :
+    emit importLine [([102, 109, 116], []), ([117, 110, 115, 97, 102, 101], [])] ≠
+    emit importLine [([117, 110, 115, 97, 102, 101], []), ([102, 109, 116], [])] := by decide
+
+/-! ## the inventory -/
+
+inductive Cls
+  | intoMap        -- perm_into_map
+  | nsAdd          -- ns_add_comm + std_imports_distinct
+  | sortThen       -- perm_then_sort
+  | firstError     -- perm_any: reached only while validating; only success/failure is observable
+  | sum            -- perm_sum
+  | replacer       -- replacer_perm + insertion_keys_prefix_free (insertion_replace_perm)
+  | emitInOrder    -- NOT invariant: descriptor_bytes_order_sensitive & co. — defect candidates
+  | notRun         -- code of a runtime library that the compiler never executes
+  deriving DecidableEq, Repr
+
+structure Classified where
+  pkg : String
+  fn : String
+  ord : Nat
+  kind : String
+  key : String
+  cls : Cls
+  why : String
+
+/-- Hand classification of every known site, by reading the code at the site and its callers. -/
+def classified : List Classified := [
+  ⟨"config", "loadConfig", 0, "range", "string", .intoMap,
+    "config.Ref[k] = &rc per entry of the YAML map (keys distinct unless two spellings of one path are made absolute); only read by code_ref features"⟩,
+  ⟨"extension/thrift_option", "CheckOptionGrammar", 0, "range", "string", .firstError, "struct annotations; returns the first parse error, result otherwise discarded"⟩,
+  ⟨"extension/thrift_option", "CheckOptionGrammar", 1, "range", "string", .firstError, "field annotations; same"⟩,
+  ⟨"extension/thrift_option", "CheckOptionGrammar", 2, "range", "string", .firstError, "service annotations; same"⟩,
+  ⟨"extension/thrift_option", "CheckOptionGrammar", 3, "range", "string", .firstError, "method annotations; same"⟩,
+  ⟨"extension/thrift_option", "CheckOptionGrammar", 4, "range", "string", .firstError, "enum annotations; same"⟩,
+  ⟨"extension/thrift_option", "CheckOptionGrammar", 5, "range", "string", .firstError, "enum value annotations; same"⟩,
+  ⟨"extension/thrift_option", "creatStruct", 0, "range", "string", .firstError,
+    "rejects the first unknown field name; on the generation path only under CheckOptionGrammar (use_option)"⟩,
+  ⟨"extension/thrift_option", "createMap", 0, "range", "string", .firstError,
+    "stores parsed entries into maps / returns the first error; only under CheckOptionGrammar, value discarded"⟩,
+  ⟨"extension/thrift_option", "createMap", 1, "range", "interface{}", .intoMap, "SetMapIndex per entry; only under CheckOptionGrammar, value discarded"⟩,
+  ⟨"extension/thrift_option", "formatTree", 0, "range", "string", .firstError,
+    "prints a tree in iteration order, the text is parsed back into a map by ParseKV; only under CheckOptionGrammar"⟩,
+  ⟨"extension/thrift_option", "getOptionContent", 0, "range", "string", .firstError,
+    "collects sub-values of one option (stored into a tree keyed by path); only under CheckOptionGrammar"⟩,
+  ⟨"generator", "(*insertionPointReplacer).Replace", 0, "range", "string", .replacer, "argument list of strings.NewReplacer"⟩,
+  ⟨"generator/fastgo", "(*bitsetCodeGen).GenIfNotSet", 0, "range", "interface{}", .intoMap, "inverts field→bit into bit→field; bits are distinct"⟩,
+  ⟨"generator/fastgo", "(*codewriter).Imports", 0, "range", "string", .emitInOrder,
+    "import lines appended in iteration order; go/format sorts each block afterwards unless no_fmt: DEFECT with -g fastgo:no_fmt"⟩,
+  ⟨"generator/golang", "(*CodeUtils).BuildFuncMap", 0, "range", "string", .sortThen, "ServiceThrows: collected then sort.Slice by Go type name = the map key"⟩,
+  ⟨"generator/golang", "(*importManager).init", 0, "range", "string", .nsAdd, "ns.Add(pkg, path); libNotUsed[pkg] = true"⟩,
+  ⟨"generator/golang/extension/meta", "(*instance).Read", 0, "range", "int16", .firstError,
+    "names the first missing required field; runs at start-up (RegisterStruct) on constant descriptors that have none missing"⟩,
+  ⟨"generator/golang/extension/meta", "write", 0, "MapRange", "?", .emitInOrder,
+    "map entries written in MapRange order: descriptor bytes of *-reflection.go: DEFECT with -g go:with_reflection"⟩,
+  ⟨"parser", "(*Thrift).BLength", 0, "range", "string", .sum, "adds 4+len(k)+4 per entry of Name2Category"⟩,
+  ⟨"parser", "(*Thrift).FastAppend", 0, "range", "string", .emitInOrder,
+    "Name2Category written in iteration order into the request sent to plugins: DEFECT with -p"⟩,
+  ⟨"pkg/namespace", "(*namespace).Iterate", 0, "range", "string", .intoMap,
+    "only caller ResolveImports stores imports[path]; paths distinct as name→id is injective here; the Imports template ranges the result in sorted key order"⟩,
+  ⟨"thrift_reflection", "(*ConstValueDescriptor).GetValueAsString", 0, "range", "*ConstValueDescriptor", .firstError,
+    "prints a map constant in iteration order; only caller on the generation path is thrift_option.creatStruct, which parses the text back; under CheckOptionGrammar"⟩,
+  ⟨"thrift_reflection", "(*GlobalDescriptor).LookupConst", 0, "range", "string", .firstError,
+    "first file that has the name; with filepath \"\" only from GetValueAsString; under CheckOptionGrammar"⟩,
+  ⟨"thrift_reflection", "(*GlobalDescriptor).LookupEnum", 0, "range", "string", .notRun, "no caller in the compiler passes an empty filepath"⟩,
+  ⟨"thrift_reflection", "(*GlobalDescriptor).LookupException", 0, "range", "string", .notRun, "same"⟩,
+  ⟨"thrift_reflection", "(*GlobalDescriptor).LookupIncludedStructsFromMethod", 0, "range", "*StructDescriptor", .notRun, "runtime API, no caller in the compiler"⟩,
+  ⟨"thrift_reflection", "(*GlobalDescriptor).LookupIncludedStructsFromStruct", 0, "range", "*StructDescriptor", .notRun, "same"⟩,
+  ⟨"thrift_reflection", "(*GlobalDescriptor).LookupIncludedStructsFromType", 0, "range", "*StructDescriptor", .notRun, "same"⟩,
+  ⟨"thrift_reflection", "(*GlobalDescriptor).LookupMethod", 0, "range", "string", .notRun, "no caller in the compiler passes an empty filepath"⟩,
+  ⟨"thrift_reflection", "(*GlobalDescriptor).LookupService", 0, "range", "string", .notRun, "same"⟩,
+  ⟨"thrift_reflection", "(*GlobalDescriptor).LookupStruct", 0, "range", "string", .notRun, "same"⟩,
+  ⟨"thrift_reflection", "(*GlobalDescriptor).LookupTypedef", 0, "range", "string", .notRun, "same"⟩,
+  ⟨"thrift_reflection", "(*GlobalDescriptor).LookupUnion", 0, "range", "string", .notRun, "same"⟩,
+  ⟨"thrift_reflection", "(*GlobalDescriptor).ShowRegisterInfo", 0, "range", "string", .notRun, "runtime API, no caller in the compiler"⟩,
+  ⟨"thrift_reflection", "(*GlobalDescriptor).matchRemoteFileDescriptor", 0, "range", "string", .notRun,
+    "runs when generated code registers itself (ReplaceFileDescriptor), not in the compiler"⟩
+]
+
+def covers (c : Classified) (s : Site) : Bool :=
+  c.pkg == s.pkg && c.fn == s.fn && c.ord == s.ord && c.kind == s.kind && c.key == s.key
+
+/-- regenerated obligation: every map-iteration site that go/types finds in the packages reachable
+from the compiler's entry points is one of the classified sites (same package, function, ordinal,
+kind and key type). A new, moved or retyped site breaks this until it is read and classified. -/
+theorem site_inventory_covered : ∀ s ∈ sites, classified.any (fun c => covers c s) = true := by decide
+
+/-- the sites whose iteration order reaches output bytes unsorted — exactly these three. -/
+theorem emit_in_order_sites :
+    (classified.filter (fun c => c.cls == .emitInOrder)).map (fun c => (c.pkg, c.fn, c.ord)) =
+      [("generator/fastgo", "(*codewriter).Imports", 0),
+       ("generator/golang/extension/meta", "write", 0),
+       ("parser", "(*Thrift).FastAppend", 0)] := by decide
+
+end Props.C07
